@@ -171,6 +171,17 @@ CLAIMS = {
         note="Trusted: reference field tables in spverif/props/c18.py. Term-for-term identity of the decoded LV names of a put request "
              "with the built ones is not decided (LV decoding is C08's obligation).",
         technique=TECH + "; empty-escape-set (purity) check from the raise log"),
+    "C13": dict(
+        text="Static analysis of the per-call structural conditions from which lossless ordered reassembly follows by induction over "
+             "parser calls: the statement skeleton of parse_space_packets and its helper is matched on the syntax tree and every "
+             "expression in it is evaluated to a gated term and compared semantically: drain consumes the whole queue first-in "
+             "first-out; every exit of the scan loop re-queues buf[idx:] or is taken only after the helper re-queued it (non-zero "
+             "code exactly on that path); short-header test idx+6 > len; a returned packet is buf[idx:idx+total] and the index "
+             "advances by exactly total, otherwise by exactly 1; scanned id and length field positions/masks equal the C01 layout. "
+             "The universally quantified statement over fragmentations is NOT decided; only these necessary conditions are.",
+        note="Trusted: the induction argument in DESIGN.md 4/C13; deque semantics. A restructured function body yields an analysis "
+             "error (exit 2), never a violation.",
+        technique="structured syntax-tree must-pass analysis with abstract interpretation of the matched expressions (gated terms, linear forms)"),
 }
 
 NOT_CLAIMED = {}
